@@ -1741,3 +1741,153 @@ pub fn vp_compound_drain(data: &[u8]) -> (n: usize)
 }
 
 } // verus!
+
+verus! {
+
+// ---- C03: SDES round trip ------------------------------------------------------------------------------------------
+use crate::sdes::{SdesItemBuilder, SdesChunkBuilder, SdesBuilder, item_calc, img_item, items_calc, items_img, chunk_calc, img_chunk, chunks_calc, chunks_img};
+
+pub open spec fn item_cfg_ok(it: &SdesItemBuilder) -> bool {
+    item_calc(it) is Ok && it.type_ != 0
+}
+
+/// decoding of an item image that sits at offset p of d
+pub proof fn lemma_item_img_at(d: Seq<u8>, p: int, it: &SdesItemBuilder, end: int)
+    requires
+        item_cfg_ok(it),
+        0 <= p,
+        p + img_item(it).len() <= end <= d.len(),
+        d.subrange(p, p + img_item(it).len() as int) == img_item(it),
+    ensures
+        img_item(it).len() == item_calc(it)->Ok_0,
+        d[p] == it.type_,
+        d[p] != 0,
+        item_ok(d, p, end),
+        item_end(d, p) == p + img_item(it).len(),
+        it.type_ != 8 ==> d.subrange(p + 2, item_end(d, p)) == cow_str_bytes(&it.value),
+        it.type_ == 8 ==> d[p + 2] == cow_u8(&it.prefix).len() && d.subrange(p + 3, p + 3 + d[p + 2] as int) == cow_u8(&it.prefix)
+            && d.subrange(p + 3 + d[p + 2] as int, item_end(d, p)) == cow_str_bytes(&it.value),
+{
+    let img = img_item(it);
+    let value = cow_str_bytes(&it.value);
+    let prefix = cow_u8(&it.prefix);
+    let sub = d.subrange(p, p + img.len() as int);
+    assert(sub[0] == d[p] && sub[1] == d[p + 1]);
+    if it.type_ == 8 {
+        assert(img.len() == 3 + prefix.len() + value.len());
+        assert(sub[2] == d[p + 2]);
+        assert(img[1] == (prefix.len() + 1 + value.len()) as u8);
+        assert(img[2] == prefix.len() as u8);
+        assert(d.subrange(p + 3, p + 3 + prefix.len()) =~= prefix) by {
+            assert(sub.subrange(3, 3 + prefix.len() as int) =~= prefix);
+            assert(sub.subrange(3, 3 + prefix.len() as int) =~= d.subrange(p + 3, p + 3 + prefix.len()));
+        }
+        assert(d.subrange(p + 3 + prefix.len(), p + img.len()) =~= value) by {
+            assert(sub.subrange(3 + prefix.len() as int, img.len() as int) =~= value);
+            assert(sub.subrange(3 + prefix.len() as int, img.len() as int) =~= d.subrange(p + 3 + prefix.len(), p + img.len()));
+        }
+    } else {
+        assert(img.len() == 2 + value.len());
+        assert(img[1] == value.len() as u8);
+        assert(d.subrange(p + 2, p + img.len()) =~= value) by {
+            assert(sub.subrange(2, img.len() as int) =~= value);
+            assert(sub.subrange(2, img.len() as int) =~= d.subrange(p + 2, p + img.len()));
+        }
+    }
+}
+
+/// offsets at which the items of a chunk start (chunk-relative; the first item starts at p0)
+pub open spec fn item_starts(items: Seq<SdesItemBuilder>, k: int, p0: int) -> Seq<int>
+    decreases k,
+{
+    if k <= 0 {
+        Seq::empty()
+    } else {
+        item_starts(items, k - 1, p0).push(p0 + items_img(items, k - 1).len())
+    }
+}
+
+pub open spec fn items_cfg_ok(items: Seq<SdesItemBuilder>) -> bool {
+    forall|i: int| 0 <= i < items.len() ==> item_cfg_ok(&#[trigger] items[i])
+}
+
+pub proof fn lemma_items_img_len(items: Seq<SdesItemBuilder>, k: int)
+    requires
+        0 <= k <= items.len(),
+        items_cfg_ok(items),
+    ensures
+        items_calc(items, k) is Ok,
+        items_img(items, k).len() == items_calc(items, k)->Ok_0,
+        item_starts(items, k, 4).len() == k,
+    decreases k,
+{
+    if k > 0 {
+        lemma_items_img_len(items, k - 1);
+        assert(item_cfg_ok(&items[k - 1]));
+    }
+}
+
+/// walking the TLVs of a buffer that holds the item images of a chunk from p0 on visits exactly the item starts
+#[verifier::spinoff_prover]
+pub proof fn lemma_walk_items(d: Seq<u8>, items: Seq<SdesItemBuilder>, k: int)
+    requires
+        0 <= k <= items.len(),
+        items_cfg_ok(items),
+        4 + items_img(items, k).len() <= d.len(),
+        d.subrange(4, 4 + items_img(items, k).len() as int) == items_img(items, k),
+    ensures
+        walk(d, 4) == crate::sdes::walk_prepend(item_starts(items, k, 4), walk(d, 4 + items_img(items, k).len() as int)),
+        forall|i: int| 0 <= i < k ==> d.subrange(#[trigger] item_starts(items, k, 4)[i], item_starts(items, k, 4)[i] + img_item(&items[i]).len()) == img_item(&items[i]),
+    decreases k,
+{
+    lemma_items_img_len(items, k);
+    if k == 0 {
+        let w = walk(d, 4);
+        assert(crate::sdes::walk_prepend(Seq::<int>::empty(), w) == w) by {
+            match w {
+                Walk::Term(st, t) => { assert(Seq::<int>::empty() + st =~= st); },
+                Walk::End(st) => { assert(Seq::<int>::empty() + st =~= st); },
+                Walk::Bad => {},
+            }
+        }
+        assert(items_img(items, 0).len() == 0);
+    } else {
+        lemma_items_img_len(items, k - 1);
+        let prev = items_img(items, k - 1);
+        let cur = items_img(items, k);
+        let it = &items[k - 1];
+        let p = 4 + prev.len() as int;
+        assert(item_cfg_ok(it));
+        assert(cur == prev + img_item(it));
+        assert(d.subrange(4, 4 + prev.len() as int) =~= prev) by {
+            assert(d.subrange(4, 4 + cur.len() as int).subrange(0, prev.len() as int) =~= prev);
+        }
+        assert(d.subrange(p, p + img_item(it).len() as int) =~= img_item(it)) by {
+            assert(d.subrange(4, 4 + cur.len() as int).subrange(prev.len() as int, cur.len() as int) =~= img_item(it));
+        }
+        lemma_walk_items(d, items, k - 1);
+        lemma_item_img_at(d, p, it, d.len() as int);
+        let next = p + img_item(it).len();
+        assert(next == 4 + cur.len());
+        // one unfolding of the walk at the last item
+        assert(walk(d, p) == crate::sdes::walk_prepend(seq![p], walk(d, next))) by {
+            reveal_with_fuel(walk, 2);
+            match walk(d, next) {
+                Walk::Term(st, t) => {},
+                Walk::End(st) => {},
+                Walk::Bad => {},
+            }
+        }
+        crate::sdes::lemma_prepend_assoc(item_starts(items, k - 1, 4), seq![p], walk(d, next));
+        assert(item_starts(items, k - 1, 4) + seq![p] =~= item_starts(items, k, 4));
+        assert forall|i: int| 0 <= i < k implies d.subrange(#[trigger] item_starts(items, k, 4)[i], item_starts(items, k, 4)[i] + img_item(&items[i]).len()) == img_item(&items[i]) by {
+            if i < k - 1 {
+                assert(item_starts(items, k, 4)[i] == item_starts(items, k - 1, 4)[i]);
+            } else {
+                assert(item_starts(items, k, 4)[i] == p);
+            }
+        }
+    }
+}
+
+} // verus!
